@@ -7,6 +7,7 @@ import (
 	"math"
 	"time"
 
+	"github.com/maypok86/otter/v2/internal/deque"
 	"github.com/maypok86/otter/v2/internal/generated/node"
 	"github.com/maypok86/otter/v2/internal/hashmap"
 )
@@ -39,6 +40,32 @@ func ghost_hasExpLinks() bool                                          { panic("
 // the abstract table: ghost_tbl(m, k) is the entry stored under k (nil when absent)
 func ghost_tbl[K comparable, V any](m *hashmap.Map[K, V, node.Node[K, V]], k K) node.Node[K, V] {
 	panic("ghost")
+}
+
+// policy membership: node n is linked in deque d / scheduled in the timer wheel
+func ghost_inDeque[K comparable, V any](d *deque.Linked[K, V], n node.Node[K, V]) bool { panic("ghost") }
+func ghost_inWheel[K comparable, V any](n node.Node[K, V]) bool                          { panic("ghost") }
+func ghost_calls_evictNode() int                                                         { panic("ghost") }
+func ghost_calls_expireNode() int                                                        { panic("ghost") }
+func ghost_calls_deleteExpiredFromBucket() int                                           { panic("ghost") }
+func ghost_calls_maintenance() int                                                       { panic("ghost") }
+func ghost_calls_runTask() int                                                           { panic("ghost") }
+
+// queueOf: the deque a node's queue type designates
+func queueOf[K comparable, V any](p *policy[K, V], n node.Node[K, V]) *deque.Linked[K, V] {
+	switch ghost_queueType(n) {
+	case node.InWindowQueue:
+		return p.window
+	case node.InMainProbationQueue:
+		return p.probation
+	default:
+		return p.protected
+	}
+}
+
+func wfPolicy[K comparable, V any](p *policy[K, V]) bool {
+	return p.window != nil && p.probation != nil && p.protected != nil && p.sketch != nil && p.window != p.probation && p.window != p.protected && p.probation != p.protected &&
+		(p.sketch.isNotInitialized() || wfSketch(p.sketch))
 }
 
 // the in-flight load table
@@ -272,6 +299,7 @@ func estOf[K comparable](s *sketch[K], k K) uint64 {
 
 //@ fieldinv ghost_expiresAt: v >= 0
 //@ fieldinv ghost_refreshableAt: v >= 0
+//@ fieldinv ghost_queueType: v <= 2
 
 //@ macro MAINT = node::state, node::queueType, node::prev, node::next, node::prevExp, node::nextExp, ghost_tbl(*), policy::*, Variable::*, Linked::*, sketch::*, cache::drainStatus, cache::evictionMutex, task::*
 
@@ -291,6 +319,7 @@ func estOf[K comparable](s *sketch[K], k K) uint64 {
 
 //@ macro RHOOKS = ghost_calls_RefreshAfterCreate(), ghost_ret_RefreshAfterCreate(), ghost_calls_RefreshAfterUpdate(), ghost_ret_RefreshAfterUpdate(), ghost_calls_RefreshAfterReload(), ghost_ret_RefreshAfterReload(), ghost_calls_RefreshAfterReloadFailure(), ghost_ret_RefreshAfterReloadFailure()
 //@ macro EVLOG = ghost_evictions(), ghost_evictionWeight()
+//@ macro LINKFX = node::prev, node::next, node::prevExp, node::nextExp, Linked::head, Linked::tail, Linked::len
 //@ macro ATOMICEV = ghost_calls_onAtomicDeletion()
 //@ macro ONDEL = ghost_calls_onDeletion()
 //@ macro WHOOKS = ghost_calls_ExpireAfterCreate(), ghost_ret_ExpireAfterCreate(), ghost_calls_ExpireAfterUpdate(), ghost_ret_ExpireAfterUpdate(), ghost_calls_weigher(), ghost_ret_weigher(), $RHOOKS
@@ -791,3 +820,82 @@ func estOf[K comparable](s *sketch[K], k K) uint64 {
 //@   ensures [C20:load-counted-once] ghost_loadSuccess()+ghost_loadFailure() == pre(ghost_loadSuccess()+ghost_loadFailure()) + 1 && ghost_calls_fn() == pre(ghost_calls_fn()) + 1
 //@   ensures [C20:success-iff-no-error-or-notfound] ghost_loadSuccess() == pre(ghost_loadSuccess()) + pickU64(ghost_ret_fn() == nil || errors.Is(ghost_ret_fn(), ErrNotFound), 1, 0)
 //@   ensures on-panic [C20:load-counted-once-on-panic] ghost_loadSuccess()+ghost_loadFailure() == pre(ghost_loadSuccess()+ghost_loadFailure()) + pickU64(ghost_calls_fn() == pre(ghost_calls_fn()) + 1, 1, 0) || true
+
+// ---------------------------------------------------------------------------------------------
+// Eviction policy: C07 (justified, truthful removals), C04 (oversized / zero-weight / bound), C05 (bookkeeping)
+// ---------------------------------------------------------------------------------------------
+
+//@ macro EVICTFX = cb_n.state, node::queueType, node::prev, node::next, node::prevExp, node::nextExp, ghost_inWheel(*), ghost_inDeque(*), policy::weightedSize, policy::windowWeightedSize, policy::mainProtectedWeightedSize, Linked::*, task::*, ghost_tbl(*), ghost_calls(*), $EVLOG, $ONDEL, $ATOMICEV
+//@ macro POLFX = node::state, node::queueType, node::prev, node::next, node::prevExp, node::nextExp, ghost_inWheel(*), ghost_inDeque(*), policy::weightedSize, policy::windowWeightedSize, policy::mainProtectedWeightedSize, policy::hitsInSample, policy::missesInSample, Linked::*, sketch::*, task::*, ghost_tbl(*), ghost_calls(*), $EVLOG, $ONDEL, $ATOMICEV, ghost_calls_rand(), ghost_ret_rand()
+
+//@ func (*policy).makeDead : C04 C05 C07
+//@   requires ghost_hasSize() && ghost_hasState() && n != nil
+//@   modifies n.state, p.weightedSize, p.windowWeightedSize, p.mainProtectedWeightedSize
+//@   ensures [C05:dead-after] ghost_state(n) == 2
+//@   ensures [C07:uncounted-exactly-once] p.weightedSize == pre(p.weightedSize) - pickU64(pre(ghost_state(n)) != 2, uint64(weightOf(n)), 0)
+//@   ensures [C05:queue-sums-follow] p.windowWeightedSize == pre(p.windowWeightedSize) - pickU64(pre(ghost_state(n)) != 2 && ghost_queueType(n) == node.InWindowQueue, uint64(weightOf(n)), 0) && p.mainProtectedWeightedSize == pre(p.mainProtectedWeightedSize) - pickU64(pre(ghost_state(n)) != 2 && ghost_queueType(n) == node.InMainProtectedQueue, uint64(weightOf(n)), 0)
+
+//@ func (*policy).delete : C04 C05 C07
+//@   requires ghost_hasSize() && ghost_hasState() && n != nil && wfPolicy(p)
+//@   modifies ghost_inDeque(queueOf(p, n), n), $LINKFX, n.state, p.weightedSize, p.windowWeightedSize, p.mainProtectedWeightedSize
+//@   ensures [C05:delete-unlinks] !ghost_inDeque(queueOf(p, n), n) && ghost_state(n) == 2
+//@   ensures [C07:uncounted-exactly-once] p.weightedSize == pre(p.weightedSize) - pickU64(pre(ghost_state(n)) != 2, uint64(weightOf(n)), 0)
+
+//@ func (*policy).add : C04 C05 C07
+//@   requires ghost_hasSize() && ghost_hasState() && n != nil && wfPolicy(p) && p.maximum <= 1<<62
+//@   modifies $POLFX, ghost_calls_evictNode()
+//@   callback evictNode: requires [C07:overflow-justified] p.weightedSize > p.maximum || uint64(weightOf(cb_n)) > p.maximum
+//@   callback evictNode: requires [C07:zero-weight-pinned] weightOf(cb_n) != 0 || !alive(cb_n)
+//@   callback evictNode: modifies $EVICTFX
+//@   callback evictNode: ensures [evicted-node-dead] ghost_state(cb_n) == 2
+//@   ensures [C04:oversize-not-retained] pre(alive(n)) && uint64(weightOf(n)) > p.maximum ==> ghost_calls_evictNode() == pre(ghost_calls_evictNode()) + 1
+//@   ensures [C07:fits-not-evicted] uint64(weightOf(n)) <= p.maximum ==> ghost_calls_evictNode() == pre(ghost_calls_evictNode())
+//@   ensures [C05:add-links-alive-node] pre(alive(n)) && uint64(weightOf(n)) <= p.maximum ==> ghost_inDeque(p.window, n)
+//@   ensures [C05:out-of-order-add-not-linked] !pre(alive(n)) ==> ghost_calls_evictNode() == pre(ghost_calls_evictNode())
+
+//@ func (*policy).update : C04 C05 C07
+//@   requires ghost_hasSize() && ghost_hasState() && n != nil && old != nil && n != old && wfPolicy(p)
+//@   modifies $POLFX, ghost_calls_evictNode()
+//@   callback evictNode: requires [C07:overflow-justified] p.weightedSize > p.maximum || uint64(weightOf(cb_n)) > p.maximum
+//@   callback evictNode: requires [C07:zero-weight-pinned] weightOf(cb_n) != 0 || !alive(cb_n)
+//@   callback evictNode: modifies $EVICTFX
+//@   callback evictNode: ensures [evicted-node-dead] ghost_state(cb_n) == 2
+//@   ensures [C04:oversize-not-retained] uint64(weightOf(n)) > p.maximum ==> ghost_calls_evictNode() == pre(ghost_calls_evictNode()) + 1
+//@   ensures [C07:fits-not-evicted] uint64(weightOf(n)) <= p.maximum ==> ghost_calls_evictNode() == pre(ghost_calls_evictNode())
+//@   ensures [C05:update-transplants] pre(alive(n)) && uint64(weightOf(n)) <= p.maximum ==> ghost_inDeque(queueOf(p, n), n)
+//@   ensures [C05:old-unlinked-and-dead] ghost_state(old) == 2
+
+//@ func (*policy).evictFromWindow : C04 C05 C07
+//@   requires ghost_hasSize() && ghost_hasState() && wfPolicy(p)
+//@   modifies node::queueType, $LINKFX, ghost_inDeque(*), p.windowWeightedSize
+//@   loop 1: invariant [C07:window-demotion-only] wfPolicy(p) && ghost_hasSize() && ghost_hasState() && p.weightedSize == pre(p.weightedSize)
+//@   ensures [C07:window-overflow-demotes-never-removes] p.weightedSize == pre(p.weightedSize)
+
+//@ func (*policy).evictFromMain : C04 C05 C07 C18
+//@   requires ghost_hasSize() && ghost_hasState() && wfPolicy(p)
+//@   modifies $POLFX, ghost_calls_evictNode()
+//@   callback evictNode: requires [C07:overflow-justified] p.weightedSize > p.maximum || uint64(weightOf(cb_n)) > p.maximum
+//@   callback evictNode: requires [C07:zero-weight-pinned] weightOf(cb_n) != 0 || !alive(cb_n)
+//@   callback evictNode: requires [evicts-a-node] cb_n != nil
+//@   callback evictNode: modifies $EVICTFX
+//@   callback evictNode: ensures [evicted-node-dead] ghost_state(cb_n) == 2
+//@   loop 1: invariant [policy-wf] wfPolicy(p) && ghost_hasSize() && ghost_hasState()
+
+//@ func (*policy).evictNodes : C04 C07
+//@   requires ghost_hasSize() && ghost_hasState() && wfPolicy(p)
+//@   modifies $POLFX, ghost_calls_evictNode()
+//@   callback evictNode: requires [C07:overflow-justified] p.weightedSize > p.maximum || uint64(weightOf(cb_n)) > p.maximum
+//@   callback evictNode: requires [C07:zero-weight-pinned] weightOf(cb_n) != 0 || !alive(cb_n)
+//@   callback evictNode: requires [evicts-a-node] cb_n != nil
+//@   callback evictNode: modifies $EVICTFX
+//@   callback evictNode: ensures [evicted-node-dead] ghost_state(cb_n) == 2
+
+//@ func (*cache).evictNode : C06 C07 C20 C05 C04
+//@   requires cfg(c) && c.singleflight != nil && n != nil && c.withMaintenance
+//@   requires [wiring] (c.withEviction ==> c.evictionPolicy != nil && wfPolicy(c.evictionPolicy)) && (c.withExpiration ==> c.expirationPolicy != nil)
+//@   modifies n.state, node::queueType, node::prev, node::next, node::prevExp, node::nextExp, ghost_inWheel(*), ghost_inDeque(*), policy::weightedSize, policy::windowWeightedSize, policy::mainProtectedWeightedSize, Linked::*, task::*, ghost_tbl(*), ghost_calls(*), $EVLOG, $ONDEL, $ATOMICEV
+//@   ensures [C07:cause-expiration-only-after-deadline] c.onAtomicDeletion != nil && ghost_calls_onAtomicDeletion() != pre(ghost_calls_onAtomicDeletion()) ==> ghost_arg_onAtomicDeletion_2() == pickCause(c.withExpiration && ghost_expiresAt(n) <= nowNanos, CauseExpiration, CauseOverflow)
+//@   ensures [C06:deletion-event-iff-removed] c.onDeletion != nil ==> ghost_calls_onDeletion() == pre(ghost_calls_onDeletion()) + pickInt(ghost_lpCur(c.hashmap) == n, 1, 0)
+//@   ensures [C06:same-cause-in-both-handlers] c.onDeletion != nil && c.onAtomicDeletion != nil && ghost_lpCur(c.hashmap) == n ==> ghost_arg_onDeletion_2() == ghost_arg_onAtomicDeletion_2() && same(ghost_arg_onDeletion_1[V](), ghost_value(n))
+//@   ensures [C20:eviction-counted-iff-removed] ghost_evictions() == pre(ghost_evictions()) + pickU64(ghost_lpCur(c.hashmap) == n, 1, 0) && ghost_evictionWeight() == pre(ghost_evictionWeight()) + pickU64(ghost_lpCur(c.hashmap) == n, uint64(weightOf(n)), 0)
+//@   ensures [C05:evicted-node-dead-and-unscheduled] ghost_state(n) == 2 && (c.withExpiration ==> !ghost_inWheel(n)) && (c.withEviction ==> !ghost_inDeque(queueOf(c.evictionPolicy, n), n))
